@@ -81,11 +81,29 @@ class Base(torch.utils.data.Dataset):
     def __len__(self):
         return len(self.payload_specs)
 
+    def __getattr__(self, item):
+        # optionally the wrapped dataset offers torch's batched protocol (as torch.utils.data.Subset does)
+        if item == "__getitems__" and self.__dict__.get("batched"):
+            return lambda idxs: [self[i] for i in idxs]
+        raise AttributeError(item)
+
     def __getitem__(self, i):
         with self.counter.get_lock():
             self.counter[i] += 1
         v = build_payload(self.payload_specs[i])
+        if self.__dict__.get("twin"):
+            v = ("twin", v)
         return self.transform(v) if "transform" in self.__dict__ else v
+
+    # a deep copy of the wrapped dataset is an independent dataset: it counts its own loads and is then configured differently (it
+    # marks its samples), so that a cache shared by mistake between the two cached datasets shows
+    def __getstate__(self):
+        return {k: v for k, v in self.__dict__.items() if k != "counter"}
+
+    def __setstate__(self, state):
+        self.__dict__.update(state)
+        self.counter = mp.get_context("fork").Array("i", len(self.payload_specs))
+        self.twin = True
 
 
 class Tag:
@@ -95,6 +113,10 @@ class Tag:
     def __call__(self, sample):
         self.calls += 1
         return ("T", sample)
+
+
+def _identity(batch):
+    return batch
 
 
 def _reader(sd, order, conn):
@@ -134,6 +156,7 @@ def check(spec):
     ctx = mp.get_context("fork")
     counter = ctx.Array("i", n)
     base = Base(spec["payloads"], counter, own_transform=spec.get("base_transform", False))
+    base.batched = bool(spec.get("base_getitems"))
     tag = Tag() if spec["transform"] else None
     children_before = {c.pid for c in mp.active_children()}
     sd = SharedDictDataset(base, transform=tag)  # (the transform is keyword-only in SharedDictDataset's signature)
@@ -152,6 +175,14 @@ def check(spec):
             raise Violation("len-differs", f"{len(sd)} vs {n}")
         if sd.marker != "base-attribute":
             raise Violation("attribute-not-delegated", "")
+        # optionally a deep copy of the cached dataset is made before any access and used side by side with the original
+        twin = twin_cached = None
+        if spec.get("twin"):
+            import copy as _copy
+            twin = _copy.deepcopy(sd)
+            twin_cached = set()
+            if not isinstance(twin, type(sd)) or twin.dataset is base or not twin.dataset.__dict__.get("twin"):
+                raise Violation("deepcopy-of-cached-dataset-is-not-an-independent-cached-dataset", type(twin).__name__)
         cached = set()
         accesses = 0
         seen_seq = []
@@ -165,7 +196,8 @@ def check(spec):
                 order = [op[1] % n] if k == "get" else [a % n for a in op[1]]
                 for i in order:
                     b = loads()
-                    got = sd[i]
+                    # python ints and the numpy integers an index array / permutation hands out address the same cache entry
+                    got = sd[{0: int, 1: np.int64, 2: np.int32}[(op[3] if k == "get" and len(op) > 3 else 0)](i)]
                     accesses += 1
                     if not treg.out_equal(got, expected(i)):
                         raise Violation("observation-differs-from-wrapped-dataset", f"index {i}: {got!r} vs {expected(i)!r}"[:300])
@@ -224,6 +256,62 @@ def check(spec):
                     if tag.calls != accesses:
                         raise Violation("transform-not-applied-on-every-access", f"{tag.calls} transform calls for {accesses} accesses")
                 flags.add("iterate")
+            elif k in ("tget", "tclear"):
+                if twin is None:
+                    continue
+                tb = list(twin.dataset.counter[:])
+                if k == "tclear":
+                    twin.dispose()
+                    twin_cached = set()
+                    flags.add("twin-clear")
+                else:
+                    i = op[1] % n
+                    got = twin[i]
+                    v = ("twin", build_payload(spec["payloads"][i]))
+                    if spec.get("base_transform", False):
+                        v = ("B", v)
+                    if tag:
+                        v = ("T", v)
+                    if not treg.out_equal(got, v):
+                        raise Violation("deep-copy-of-cached-dataset-differs-from-the-dataset-it-wraps", f"index {i}: {got!r} vs {v!r}"[:300])
+                    ta = list(twin.dataset.counter[:])
+                    want = 0 if i in twin_cached else 1
+                    if ta[i] - tb[i] != want or any(ta[j] != tb[j] for j in range(n) if j != i):
+                        raise Violation("deep-copy-of-cached-dataset-load-count", f"index {i}: loads {tb} -> {ta}, expected +{want} "
+                                                                                   f"(cached in the copy: {sorted(twin_cached)}; the original was "
+                                                                                   f"{'cleared' if 'clear' in flags else 'not cleared'} before)")
+                    twin_cached.add(i)
+                    flags.add("twin")
+                if loads() != before:
+                    raise Violation("access-to-the-deep-copy-loads-through-the-original", f"{before} -> {loads()}")
+            elif k == "loader":
+                # the consumer the cache is made for: a DataLoader (in-process) with a batch size and an index order that may repeat
+                # an index inside one batch (sampling with replacement)
+                order = [a % n for a in op[1]]
+                loader = torch.utils.data.DataLoader(sd, batch_size=op[2], sampler=order, num_workers=0, collate_fn=_identity)
+                got = [v for batch in loader for v in batch]
+                accesses += len(got)
+                if len(got) != len(order):
+                    raise Violation("loader-yields-wrong-number-of-samples", f"{len(got)} for {len(order)} indices")
+                for i, g_ in zip(order, got):
+                    if not treg.out_equal(g_, expected(i)):
+                        raise Violation("observation-differs-from-wrapped-dataset:loader", f"index {i}: {g_!r} vs {expected(i)!r}"[:300])
+                after = loads()
+                for i in range(n):
+                    d = after[i] - before[i]
+                    want = 1 if (i in order and i not in cached) else 0
+                    if d != want:
+                        raise Violation("loader-load-count", f"index {i}: +{d} loads through a DataLoader (batch size {op[2]}, order {order}), "
+                                                             f"expected +{want} ({'cached before' if i in cached else 'not cached before'})")
+                for i in order:
+                    if i in cleared_since:
+                        reaccess_after_clear = True
+                        cleared_since.discard(i)
+                cached |= set(order)
+                seen_seq += order
+                if tag and tag.calls != accesses:
+                    raise Violation("transform-not-applied-on-every-access", f"{tag.calls} transform calls for {accesses} accesses")
+                flags.add("loader")
             elif k == "pread":
                 import pickle
                 if preader is None:
@@ -341,15 +429,21 @@ def check(spec):
 
 @st.composite
 def op(draw, tier):
-    k = draw(st.sampled_from(["get", "get", "get", "many", "clear", "oob", "iterate", "copy", "pread"] + (["readers"] if tier == "thorough" else ["readers"] * 0)))
+    k = draw(st.sampled_from(["get", "get", "get", "many", "clear", "oob", "iterate", "copy", "pread", "loader", "tget", "tget", "tclear"] + (["readers"] if tier == "thorough" else ["readers"] * 0)))
     if k == "get":
-        return ["get", draw(st.integers(0, 30))]
+        return ["get", draw(st.integers(0, 30)), None, draw(st.sampled_from([0, 0, 1, 2]))]
     if k == "many":
         return ["many", draw(st.lists(st.integers(0, 30), min_size=1, max_size=6))]
     if k == "clear":
         return ["clear"]
     if k == "oob":
         return ["oob", draw(st.integers(0, 5))]
+    if k == "tget":
+        return ["tget", draw(st.integers(0, 30))]
+    if k == "tclear":
+        return ["tclear"]
+    if k == "loader":
+        return ["loader", draw(st.lists(st.integers(0, 30), min_size=1, max_size=8)), draw(st.integers(1, 4))]
     if k == "pread":
         return ["pread", draw(st.lists(st.integers(0, 30), min_size=1, max_size=4, unique=True))]
     if k == "iterate":
@@ -364,7 +458,7 @@ def op(draw, tier):
 def spec_s(draw, tier, with_readers):
     payloads = draw(st.lists(PAYLOAD, min_size=1, max_size=8))
     ops = draw(st.lists(op("thorough" if with_readers else "quick"), min_size=2, max_size=30 if not with_readers else 12))
-    return {"payloads": payloads, "transform": draw(st.booleans()), "base_transform": draw(st.booleans()), "ops": ops}
+    return {"payloads": payloads, "transform": draw(st.booleans()), "base_transform": draw(st.booleans()), "base_getitems": draw(st.booleans()), "twin": draw(st.booleans()), "ops": ops}
 
 
 FACETS = [
